@@ -3,7 +3,8 @@ CONSTANTS
     EpochOrderStrict = FALSE
     CacheSound = FALSE
     MaxAlter = 1
-    TamperFields = {"resign", "prev", "epoch", "avk", "params", "nextAvk", "nextParams"}
+    TamperFields = {"resign", "prev", "epoch", "nextAvk", "nextParams"}
+    MsgModes = {"r"}
     ForgeEpochs = {2, 3, 4}
     Forge2Pars = {"q"}
     ForgeKeys = {"A", "H4"}
